@@ -50,6 +50,9 @@ func extSasl(i string) (string, sasl.Client) {
 	return "ext:" + drv.H(i), sasl.NewExternalClient(i)
 }
 
+// lateNewNick: the next rig gets its nick generator through Config() AFTER Client() has been called
+var lateNewNick = false
+
 func newRig(p rigParams) *rig {
 	r := &rig{}
 	cfg := client.NewConfig(p.nick, p.ident, p.name)
@@ -63,13 +66,17 @@ func newRig(p rigParams) *rig {
 	cfg.Capabilites = p.caps
 	cfg.Sasl = p.saslClient
 	cfg.Flood = true
+	var gen func(string) string
 	switch {
 	case strings.HasPrefix(p.newNick, "append:"):
 		x, _ := drv.UnH(strings.TrimPrefix(p.newNick, "append:"))
-		cfg.NewNick = func(o string) string { return o + x }
+		gen = func(o string) string { return o + x }
 	case strings.HasPrefix(p.newNick, "const:"):
 		x, _ := drv.UnH(strings.TrimPrefix(p.newNick, "const:"))
-		cfg.NewNick = func(string) string { return x }
+		gen = func(string) string { return x }
+	}
+	if gen != nil && !lateNewNick {
+		cfg.NewNick = gen
 	}
 	cfg.Recover = func(_ *client.Conn, _ *client.Line) {
 		if e := recover(); e != nil {
@@ -79,6 +86,9 @@ func newRig(p rigParams) *rig {
 		}
 	}
 	r.conn = client.Client(cfg)
+	if gen != nil && lateNewNick { // "the configured generator" is the one in Config() when the collision happens
+		r.conn.Config().NewNick = gen
+	}
 	if p.track {
 		r.conn.EnableStateTracking()
 	}
